@@ -414,6 +414,9 @@ func (e *Engine) evalParam(x *ssa.Parameter, ctx *Ctx) *Term {
 		if ctx.Call == nil {
 			return own()
 		}
+		if ctx.Call.Common().StaticCallee() != fn {
+			return own() // entered as a closure / function value
+		}
 		args := ctx.Call.Common().Args
 		if ctx.Call.Common().IsInvoke() {
 			// static callee of an invoke is never used
